@@ -16,7 +16,7 @@
    Every dereference the code performs is modelled through a match whose impossible branch is
    LFault; every internal_error the code can throw on this path is LErr EInternal. *)
 From Coq Require Import List NArith ZArith Bool.
-From LTV Require Import Common.Bytes Params_gen.
+From LTV Require Import Common.Bytes.
 From LTV.C07 Require Import Model.
 Import ListNotations.
 Local Open Scope N_scope.
@@ -209,9 +209,15 @@ Definition k_attr := (*"attr"*) [97;116;116;114]. Definition k_announce := (*"an
 Definition k_announce_list := (*"announce-list"*) [97;110;110;111;117;110;99;101;45;108;105;115;116].
 
 Definition int64_max_z : Z := 9223372036854775807%Z.
-Definition piece_length_min := Params.c08_piece_length_min.      (* exclusive: 1 << 10 *)
-Definition piece_length_max := Params.c08_piece_length_max.      (* inclusive: 512 << 20 *)
-Definition hash_size : N := Params.c08_hash_size.
+(* What the property leaves open, as a POLICY that is probed from the running implementation
+   (harness --params) and handed to the model; the theorems hold for every policy with policy_ok:
+     pl_min (exclusive) / pl_max (inclusive): accepted range of "piece length" (today 1<<10, 512<<20);
+     reject_foreign_xt: a magnet "xt" topic that is not "urn:btih:" makes the whole link invalid
+       (today: true) or is skipped like an unknown parameter (false). *)
+Record policy := mkPolicy { pl_min : N; pl_max : N; reject_foreign_xt : bool }.
+Definition policy_ok (p : policy) : bool := pl_max p <? two32.
+Definition default_policy : policy := mkPolicy 1024 536870912 true.
+Definition hash_size : N := 20.    (* HashString::size_data: SHA-1; the harness --params reports the compiled value *)
 
 (* FileList::set_root_dir *)
 Fixpoint strip_slashes_rev (r : bytes) : bytes :=
@@ -384,8 +390,9 @@ Fixpoint span_eq (pos : bytes) (acc : bytes) : bytes * bytes :=
 Definition urn_btih := (*"urn:btih:"*) [117;114;110;58;98;116;105;104;58].
 Definition tag_xt := (*"xt"*) [120;116]. Definition tag_tr := (*"tr"*) [116;114].
 
-(* the main loop of parse_magnet_uri; fuel = |uri| + 1 (each round consumes at least the '=') *)
-Fixpoint magnet_loop (fuel : nat) (pos : bytes) (hash : option bytes) (trackers : list bytes)
+(* the main loop of parse_magnet_uri; fuel = |uri| + 1 (each round consumes at least the '=').
+   rf = policy reject_foreign_xt. *)
+Fixpoint magnet_loop (rf : bool) (fuel : nat) (pos : bytes) (hash : option bytes) (trackers : list bytes)
   : lres (option bytes * list bytes) :=
   match fuel with
   | O => LFault
@@ -398,28 +405,27 @@ Fixpoint magnet_loop (fuel : nat) (pos : bytes) (hash : option bytes) (trackers 
         | [] => LErr EInput
         | _ :: pos1 =>
             let is_xt := bytes_eqb tag tag_xt in
-            (* xt: optional base32 form *)
-            let after_urn :=
-              if is_xt then
-                if (N.of_nat (length pos1) <? 9) || negb (bytes_eqb (firstn 9 pos1) urn_btih) then LErr EInput
-                else LOk (skipn 9 pos1)
-              else LOk pos1 in
-            do pos2 <- after_urn;
-            match (if is_xt then parse_base32_sha1 pos2 else None) with
-            | Some (h, next) => magnet_loop f next (Some h) trackers
+            let no_urn := (N.of_nat (length pos1) <? 9) || negb (bytes_eqb (firstn 9 pos1) urn_btih) in
+            if is_xt && no_urn && rf then LErr EInput
+            else
+            (* an info-hash topic: optional base32 form first *)
+            let is_ih := is_xt && negb no_urn in
+            let pos2 := if is_ih then skipn 9 pos1 else pos1 in
+            match (if is_ih then parse_base32_sha1 pos2 else None) with
+            | Some (h, next) => magnet_loop rf f next (Some h) trackers
             | None =>
                 do r <- url_decode pos2 [];
                 let '(decoded, next) := r in
-                if is_xt then
-                  if N.of_nat (length decoded) =? hash_size then magnet_loop f next (Some decoded) trackers
+                if is_ih then
+                  if N.of_nat (length decoded) =? hash_size then magnet_loop rf f next (Some decoded) trackers
                   else if N.of_nat (length decoded) =? 2 * hash_size then
                     match from_hex decoded with
-                    | Some h => magnet_loop f next (Some h) trackers
+                    | Some h => magnet_loop rf f next (Some h) trackers
                     | None => LErr EInput
                     end
                   else LErr EInput
-                else if bytes_eqb tag tag_tr then magnet_loop f next hash (decoded :: trackers)
-                else magnet_loop f next hash trackers
+                else if bytes_eqb tag tag_tr then magnet_loop rf f next hash (decoded :: trackers)
+                else magnet_loop rf f next hash trackers
             end
         end
       end
@@ -427,10 +433,10 @@ Fixpoint magnet_loop (fuel : nat) (pos : bytes) (hash : option bytes) (trackers 
 
 Definition magnet_prefix := (*"magnet:?"*) [109;97;103;110;101;116;58;63].
 
-Definition parse_magnet_hash (uri : bytes) : lres (bytes * list bytes) :=
+Definition parse_magnet_hash (rf : bool) (uri : bytes) : lres (bytes * list bytes) :=
   if negb (bytes_eqb (firstn 8 uri) magnet_prefix) then LErr EInput
   else
-    do r <- magnet_loop (S (length uri)) (skipn 8 uri) None [];
+    do r <- magnet_loop rf (S (length uri)) (skipn 8 uri) None [];
     match fst r with
     | None => LErr EInput
     | Some h => LOk (h, snd r)
@@ -449,8 +455,8 @@ Definition insert_preserve_type (k : bytes) (v : value) (m : list (bytes * value
   end.
 
 (* parse_magnet_uri: the rewritten torrent object *)
-Definition parse_magnet_uri (m : list (bytes * value)) (uri : bytes) : lres (list (bytes * value)) :=
-  do r <- parse_magnet_hash uri;
+Definition parse_magnet_uri (rf : bool) (m : list (bytes * value)) (uri : bytes) : lres (list (bytes * value)) :=
+  do r <- parse_magnet_hash rf uri;
   let '(h, trackers) := r in
   let info := map_insert k_meta (VInt 1) (map_insert k_name (VStr (to_hex_str h ++ (*".meta"*) [46;109;101;116;97])) (map_insert k_pieces (VStr h) [])) in
   let m1 := map_insert k_info (VMap info) m in
@@ -487,6 +493,7 @@ Definition zero_hash : bytes := repeat 0 (N.to_nat hash_size).
 
 Section Loader.
 Variable H : bytes -> bytes.     (* SHA-1 *)
+Variable pol : policy.           (* probed from the implementation *)
 
 (* DownloadConstructor::initialize + torrent::download_add. 'unordered' is the flag_unordered bit
    of b["info"]. *)
@@ -494,7 +501,7 @@ Definition load (b : value) (unordered : bool) : lres download :=
   do m0 <- as_map b;
   let magnet := negb (has_key_map m0 k_info) && has_key_string m0 k_magnet in
   do m <- (if magnet
-           then match lookup k_magnet m0 with Some (VStr uri) => parse_magnet_uri m0 uri | _ => LFault end
+           then match lookup k_magnet m0 with Some (VStr uri) => parse_magnet_uri (reject_foreign_xt pol) m0 uri | _ => LFault end
            else LOk m0);
   let unordered := if magnet then false else unordered in
   do info_v <- get_key m k_info;
@@ -516,7 +523,7 @@ Definition load (b : value) (unordered : bool) : lres download :=
             else
               do plv <- get_key im k_piece_length;
               do pl <- as_value plv;
-              if (pl <=? Z.of_N piece_length_min)%Z || (pl >? Z.of_N piece_length_max)%Z then LErr EInput
+              if (pl <=? Z.of_N (pl_min pol))%Z || (pl >? Z.of_N (pl_max pol))%Z then LErr EInput
               else LOk (u32 (Z.to_N pl), None));
   let '(cs, pre) := st in
   do st2 <- (if has_key im k_length then
@@ -614,11 +621,11 @@ Definition inode_list (d : download) : list (bytes * bool) :=
   fold_left (fun acc x => insert_inode (join_path (fst x), snd x) acc) (inodes_of d) [].
 
 (* entry points for the driver *)
-Definition load_tree (H : bytes -> bytes) (b : value) (unordered : bool) : lres download :=
-  load H (normalize b) unordered.
+Definition load_tree (H : bytes -> bytes) (pol : policy) (b : value) (unordered : bool) : lres download :=
+  load H pol (normalize b) unordered.
 
-Definition load_uri (H : bytes -> bytes) (uri : bytes) : lres download :=
-  load H (VMap [(k_magnet, VStr uri)]) false.
+Definition load_uri (H : bytes -> bytes) (pol : policy) (uri : bytes) : lres download :=
+  load H pol (VMap [(k_magnet, VStr uri)]) false.
 
 (* ---------------------------------------------------------------- per-dictionary unordered flags
    torrent::Object keeps flag_unordered PER OBJECT: object_read_bencode_c sets it on a dictionary
@@ -730,9 +737,9 @@ Definition info_flag (b : fvalue) : bool :=
 
 (* bencoded bytes: the real decoder, then the loader; only the flag of the "info" dictionary
    (unordered anywhere inside it) matters, anything outside may be unordered *)
-Definition load_bytes (H : bytes -> bytes) (s : bytes) : option (lres download) :=
+Definition load_bytes (H : bytes -> bytes) (pol : policy) (s : bytes) : option (lres download) :=
   match decode_f s with
-  | Ok b _ => Some (load H (erase b) (info_flag b))
+  | Ok b _ => Some (load H pol (erase b) (info_flag b))
   | _ => None
   end.
 
@@ -811,7 +818,9 @@ Fixpoint url_decode_t (pos : bytes) (acc : bytes) (tr : list N) : lres (bytes * 
 Definition second (hash : option bytes) (tr : list N) : list N :=
   match hash with Some _ => tg_second_hash :: tr | None => tr end.
 
-Fixpoint magnet_loop_t (fuel : nat) (pos : bytes) (hash : option bytes) (trackers : list bytes) (tr : list N)
+Definition tg_xt_foreign_skipped : N := 23.   (* a non-btih xt topic treated as an unknown parameter *)
+
+Fixpoint magnet_loop_t (rf : bool) (fuel : nat) (pos : bytes) (hash : option bytes) (trackers : list bytes) (tr : list N)
   : lres (option bytes * list bytes) * list N :=
   match fuel with
   | O => (LFault, tr)
@@ -824,29 +833,31 @@ Fixpoint magnet_loop_t (fuel : nat) (pos : bytes) (hash : option bytes) (tracker
         | [] => (LErr EInput, tg_tag_without_eq :: tr)
         | _ :: pos1 =>
             let is_xt := bytes_eqb tag tag_xt in
-            if is_xt && ((N.of_nat (length pos1) <? 9) || negb (bytes_eqb (firstn 9 pos1) urn_btih))
-            then (LErr EInput, tg_xt_no_urn :: tr)
+            let no_urn := (N.of_nat (length pos1) <? 9) || negb (bytes_eqb (firstn 9 pos1) urn_btih) in
+            if is_xt && no_urn && rf then (LErr EInput, tg_xt_no_urn :: tr)
             else
-            let pos2 := if is_xt then skipn 9 pos1 else pos1 in
-            let b := if is_xt then b32_loop_t pos2 [] base_shift 0 tr else (None, tr) in
+            let is_ih := is_xt && negb no_urn in
+            let tr := if is_xt && no_urn then tg_xt_foreign_skipped :: tr else tr in
+            let pos2 := if is_ih then skipn 9 pos1 else pos1 in
+            let b := if is_ih then b32_loop_t pos2 [] base_shift 0 tr else (None, tr) in
             match fst b with
-            | Some (h, next) => magnet_loop_t f next (Some h) trackers (second hash (tg_xt_b32_ok :: snd b))
+            | Some (h, next) => magnet_loop_t rf f next (Some h) trackers (second hash (tg_xt_b32_ok :: snd b))
             | None =>
-                let tr1 := if is_xt then tg_xt_b32_fail :: snd b else snd b in
+                let tr1 := if is_ih then tg_xt_b32_fail :: snd b else snd b in
                 let u := url_decode_t pos2 [] tr1 in
                 match fst u with
                 | LOk (decoded, next) =>
-                    if is_xt then
+                    if is_ih then
                       if N.of_nat (length decoded) =? hash_size
-                      then magnet_loop_t f next (Some decoded) trackers (second hash (tg_xt_raw20 :: snd u))
+                      then magnet_loop_t rf f next (Some decoded) trackers (second hash (tg_xt_raw20 :: snd u))
                       else if N.of_nat (length decoded) =? 2 * hash_size then
                         match from_hex decoded with
-                        | Some h => magnet_loop_t f next (Some h) trackers (second hash (tg_xt_hex40_ok :: snd u))
+                        | Some h => magnet_loop_t rf f next (Some h) trackers (second hash (tg_xt_hex40_ok :: snd u))
                         | None => (LErr EInput, tg_xt_hex40_bad :: snd u)
                         end
                       else (LErr EInput, tg_xt_bad_len :: snd u)
-                    else if bytes_eqb tag tag_tr then magnet_loop_t f next hash (decoded :: trackers) (tg_tr :: snd u)
-                    else magnet_loop_t f next hash trackers (tg_other_tag :: snd u)
+                    else if bytes_eqb tag tag_tr then magnet_loop_t rf f next hash (decoded :: trackers) (tg_tr :: snd u)
+                    else magnet_loop_t rf f next hash trackers (tg_other_tag :: snd u)
                 | LErr e => (LErr e, tg_url_error :: snd u)
                 | LFault => (LFault, snd u)
                 end
@@ -855,10 +866,10 @@ Fixpoint magnet_loop_t (fuel : nat) (pos : bytes) (hash : option bytes) (tracker
       end
   end.
 
-Definition parse_magnet_hash_t (uri : bytes) : lres (bytes * list bytes) * list N :=
+Definition parse_magnet_hash_t (rf : bool) (uri : bytes) : lres (bytes * list bytes) * list N :=
   if negb (bytes_eqb (firstn 8 uri) magnet_prefix) then (LErr EInput, [tg_prefix_bad])
   else
-    let r := magnet_loop_t (S (length uri)) (skipn 8 uri) None [] [] in
+    let r := magnet_loop_t rf (S (length uri)) (skipn 8 uri) None [] [] in
     match fst r with
     | LOk (None, _) => (LErr EInput, tg_no_hash :: snd r)
     | LOk (Some h, ts) => (LOk (h, ts), (match ts with [] => tg_ok_no_trackers | _ => tg_ok_trackers end) :: snd r)
@@ -867,4 +878,4 @@ Definition parse_magnet_hash_t (uri : bytes) : lres (bytes * list bytes) * list 
     end.
 
 (* the distinct branch tags a URI reaches, for the coverage measurement *)
-Definition magnet_branches (uri : bytes) : list N := snd (parse_magnet_hash_t uri).
+Definition magnet_branches (rf : bool) (uri : bytes) : list N := snd (parse_magnet_hash_t rf uri).
